@@ -170,9 +170,10 @@ def ledger_monitor(ctx, tr, ix):
     ctx.stats["ledger_observations"] += n_obs
 
 
-def one_run(ctx, corrs, stock_only=False):
+def one_run(ctx, corrs, stock_only=False, dense=False):
     rnd = random.Random(ctx.rnd.random())
-    S = B.gen_market(rnd, ndays=rnd.randrange(10, 26), with_future=False if stock_only else None)
+    S = B.gen_market(rnd, ndays=rnd.randrange(10, 26), with_future=False if stock_only else None,
+                     opts={"p_div": 0.8, "p_split": 0.5, "p_delist": 0.35} if dense else None)
     if not S["stocks"]:
         return
     cfgk = trading.gen_config(rnd, S)
@@ -212,7 +213,7 @@ def run(ctx):
     corrs = {n: ctx.corr("Account." + n, "recorded calls of the real method replayed on the model from the same pre-state (all ledger fields and observers, 1e-9 relative; bit-equality counted)") for n in OPS}
     corrs["chain"] = ctx.corr("no unmodelled mutation", "between two recorded operations of an account its ledger does not change (post_k = pre_{k+1})")
     for k in range(ctx.n(60, 3000)):
-        one_run(ctx, corrs, stock_only=(k % 3 == 0))
+        one_run(ctx, corrs, stock_only=(k % 3 == 0), dense=(k % 2 == 1))
 
 
 def replay(ctx, data):
